@@ -40,6 +40,9 @@ def list_to_arr(l):
     if isinstance(l, ListVal):
         if l.per_iter and not l.items and len(l.per_iter) == 1 and isinstance(l.per_iter[0], tuple):
             var, count, val = l.per_iter[0][:3]
+            for rec in reversed(getattr(l, "sym_stores", [])):
+                if len(rec) == 4 and isinstance(rec[2], X) and rec[2].eq(X.var(rec[0])) and rec[1].eq(count):
+                    val = subst_val(rec[3], {rec[0]: X.var(var)}); break       # every element overwritten by a later loop
             if isinstance(val, (X, PV)) or to_x(val) is not None:
                 nv = fresh("i")
                 return Arr([(nv, count)], subst_val(val, {var: X.var(nv)}))
@@ -153,6 +156,7 @@ def h_len(I, args, kw, st, n):
 
 
 def h_range(I, args, kw, st, n):
+    args = [name_pv(a) if isinstance(a, PV) and all(to_x(l) is not None for _, l in pv_leaves(a)) else a for a in args]
     xs = [_x(a) for a in args]
     if any(x is None for x in xs): return Opaque("range of non-numbers")
     if len(xs) == 1: return lm.RangeVal(X.const(0), xs[0], X.const(1))
@@ -439,6 +443,19 @@ def h_cuda_grid(I, args, kw, st, n):
     return Opaque("cuda.grid outside a launch")
 
 
+def h_searchsorted(I, args, kw, st, n):
+    grid, v = args[0], args[1]
+    side = kw.get("side", "left")
+    G = _arr(grid, st) if isinstance(grid, LocalArr) else as_arr(grid)
+    if G is None or is_opaque(G): return Opaque("searchsorted grid")
+    import hashlib
+    gid = hashlib.md5(repr(vkey(Arr([("_g", G.axes[0][1])], subst_val(G.body, {G.axes[0][0]: X.var("_g")})))).encode()).hexdigest()[:8]
+    name = f"searchsorted_{side}#{gid}"
+    lm.INT_FNS.add(name)
+    I.trace.append(("searchsorted", name, G))
+    return lift1(lambda x: mk_fn(name, [x], "pos"), v)
+
+
 def h_opaque(why):
     def h(I, args, kw, st, n): return Opaque(why)
     return h
@@ -466,6 +483,7 @@ def h_bool(I, args, kw, st, n):
     if not args: return False
     t = I.truth(args[0], n)
     if isinstance(t, bool): return t
+    if t[0] == "tree": return t[1]
     return PV(t[0], t[1], not t[1])
 
 
@@ -581,6 +599,7 @@ _reg("numpy.where", h_where)
 _reg("numpy.select", h_select)
 _reg("numpy.clip", h_clip)
 _reg("numpy.power", h_pow)
+_reg("numpy.searchsorted", h_searchsorted)
 _reg("numpy.stack", h_stack)
 _reg("numpy.linalg.qr", h_qr)
 _reg("builtins.isinstance", h_isinstance)
